@@ -33,3 +33,11 @@ Definition check_lin_case (c : lin_case) : bool :=
 (* states given directly as tables (for merge / single-add suites) *)
 Definition sk_of (rows : list (list Z)) (na nr : Z) : sk :=
   {| cms := of_rows rows; n_added := na; n_records := nr |}.
+
+(* merge suite: operands given directly as tables *)
+Definition tstate := (list (list Z) * Z * Z)%type.
+Definition merge_case := (nat * nat * tstate * tstate * tstate)%type.
+Definition check_merge_case (c : merge_case) : bool :=
+  let '(w, d, (ra, naa, nra), (rb, nab, nrb), (re, nae, nre)) := c in
+  let m := merge (sk_of ra naa nra) (sk_of rb nab nrb) in
+  zlist2_eqb (tabulate w d (cms m)) re && (n_added m =? nae) && (n_records m =? nre).
